@@ -243,6 +243,43 @@ def gen_program(rng, family):
             g.add("refinelen", s, f3(rng.choice([0.15, 0.15, 0.1, 0.2])), 0)
         else:
             g.add("refinetol", s, f3(rng.choice([0.01, 0.02, 0.005])), 0)
+    elif family == "collapse":
+        # many edge collapses (CollapseEdge / RemoveIfFolded / FormLoop): dense or snapped meshes, large tolerances
+        k = rng.randrange(7)
+        if k == 0:
+            a = g.add("sphere", "1", rng.choice([8, 12, 16, 24]))
+        elif k == 1:
+            a = g.add("levelset", rng.randrange(6), f3(rng.choice([0.5, 0.8])), "1.300", f3(rng.choice([0.25, 0.3, 0.4])), "0", "-1", 0)
+        elif k == 2:
+            a = g.add("refine", g.add("cube", "1", "1", "1", rng.randrange(2)), rng.choice([2, 3, 4]))
+        elif k == 3:
+            a = g.add("soup", 0, rng.choice([3, 4, 6, 8]), rng.choice([3, 4, 5, 7]))
+        elif k == 4:
+            a = g.add("refine", g.add("tet"), rng.choice([2, 3, 5]))
+        elif k == 5:
+            a = g.add("cyl", "1", "1", rng.choice(["1", "0", "0.5"]), rng.choice([6, 12, 20]), 0)
+            a = g.add("refine", a, 2)
+        else:
+            b = g.add("sphere", "1", rng.choice([8, 12]))
+            c = g.add("translate", b, f3(rng.choice([0.5, 1.0, 1.5])), "0", "0")
+            a = g.add("bool", b, c, rng.randrange(3))
+        for _ in range(rng.randrange(1, 4)):
+            m = rng.randrange(6)
+            if m == 0:
+                a = g.add("warp", a, 3, f3(rng.choice([0.25, 0.5, 1.0])))          # snap to a lattice: zero-length edges
+            elif m == 1:
+                a = g.add("warp", a, rng.choice([2, 5]), "0")                        # flatten / fold
+            elif m == 2:
+                a = g.add("simplify", a, f3(rng.choice([0.05, 0.2, 0.5, 1.0, 3.0])))
+            elif m == 3:
+                a = g.add("settol", a, f3(rng.choice([0.05, 0.2, 0.5, 1.0, 3.0])))
+            elif m == 4:
+                a = g.add("scale", a, f3(rng.choice([1, 0.01, 1e-3])), "1", f3(rng.choice([1, 0.01])))
+            else:
+                a = g.add("asoriginal", a)
+        g.add(rng.choice(["simplify", "settol"]), a, f3(rng.choice([0.1, 0.3, 1.0, 2.0])))
+        if rng.random() < 0.4:
+            g.add("bool", len(g.ins) - 1, g.add("cube", "1", "1", "1", 1), rng.randrange(3))
     elif family == "lattice":
         n = rng.choice([2, 3, 4, 5])
         vals = [g.box() for _ in range(n)]
@@ -591,6 +628,12 @@ def shrink(cx, exe, drv, mt, ins, k, key, budget=40):
 
 
 def replay(cx, exe, drv, path):
+    # a replay run must not replace the evidence of the last full run (vp.finish() writes it unconditionally)
+    evp = os.path.join(vp.ROOT, "evidence", "%s.json" % cx.pid)
+    if os.path.exists(evp):
+        import atexit
+        saved = open(evp).read()
+        atexit.register(lambda: open(evp, "w").write(saved))
     obj = json.load(open(path))
     rep = obj.get("replay", obj)
     line = rep["program"]
@@ -652,7 +695,7 @@ def pipeline_verdicts(cx, drv, pipes, findings_by_variant, exe, progs_seen):
             n = 0
             while len(extra) < cx.pick(150, 1200) and n < 20000:
                 n += 1
-                ins = gen_program(rng, rng.choice(["general", "general", "lattice", "import", "smooth-refine"]))
+                ins = gen_program(rng, rng.choice(["general", "general", "lattice", "import", "smooth-refine", "collapse"]))
                 ks = [i for i, x in enumerate(ins) if x[0] in d["ops"]]
                 if ks:
                     extra["x%s%d" % (d["name"], len(extra))] = (cx.pick(2500, 20000), ins[:ks[-1] + 1])
@@ -851,7 +894,7 @@ def run(cx):
     nprog = int(os.environ.get("VERIF_C01_NPROG", cx.pick(600, 5000)))   # override only for self-validation runs on a loaded machine
     maxtri = cx.pick(2500, 20000)
     for n in range(nprog):
-        fam = rng.choices(["general", "lattice", "import", "smooth-refine"], [50, 18, 14, 18])[0]
+        fam = rng.choices(["general", "lattice", "import", "smooth-refine", "collapse"], [44, 16, 12, 14, 14])[0]
         fam_count[fam] = fam_count.get(fam, 0) + 1
         progs["q%d" % n] = (maxtri, gen_program(rng, fam))
     # corpus of past shrunk failures runs first (same ids space)
@@ -876,7 +919,7 @@ def run(cx):
         for n in range(24):
             pp["L%d" % n] = (600000, gen_large(rngp))
         for n in range(600):
-            fam = rngp.choices(["general", "lattice", "import", "smooth-refine"], [50, 18, 14, 18])[0]
+            fam = rngp.choices(["general", "lattice", "import", "smooth-refine", "collapse"], [44, 16, 12, 14, 14])[0]
             pp["p%d" % n] = (20000, gen_program(rngp, fam))
         t0 = time.time()
         fpar, spar = evaluate(cx, exe_par, drv, pp, 4, alarm=600)
